@@ -155,6 +155,19 @@ CLAIMED["C02"] = dict(
     note="Trusted: CrossHair, z3, reference encoder, frozen dictionary. Structure (AVP codes, lengths, counts) is a grid "
          "parameter; unknown (vendor, code) pairs are concrete constants per position. Outside: non-zero padding, > 3 messages.")
 
+CLAIMED["C03"] = dict(
+    level="model_checking", technique=E1 + " on fuel-instrumented decoders and single-stepped real thread bodies", design="6/C03",
+    text="Decoder: DiameterMessage.load / DiameterAVP.load are recompiled from source with a fuel counter in every loop and run "
+         "on a reference image in which exactly one field is arbitrary (Message/AVP Length at depth 0 and 1 over their whole "
+         "24-bit range by value class, flags byte, truncation point, typed data of every width per declared type, trailing bytes, "
+         "small raw buffers); CrossHair shows the result is a list or a library error and the fuel never runs out. Node: the same "
+         "bytes are delivered to a live association on a stand-in transport (real reader, receive-worker iteration and state "
+         "machine ticks); no exception escapes, no lock stays held, a following well-formed request is still delivered and "
+         "send_message/close return.",
+    note="Trusted: CrossHair (+P2 slice-bound normalisation), z3, stand-in transport, reference encoder. In-range length "
+         "values are enumerated natively (finite class). Open known finding: an invalid DWA parks the node in Closing without "
+         "a DPR. Outside: multi-field corruption beyond the raw-buffer bound; states other than Open (C06).")
+
 PENDING_REASON = "check not built yet in this session (planned in DESIGN.md section 6); no claim is made"
 NOT_APPLICABLE = {}
 
